@@ -21,6 +21,7 @@ structure MsgTables where
   encParam : Ty           -- `TPM2B_ENCRYPTED_PARAM`
   sessionsTag : Int       -- `TPM_ST.SESSIONS`
   rcSuccess : Int         -- `TPM_RC.SUCCESS`
+  deriving DecidableEq
 
 def lookupTy (m : List (Int × Ty)) (k : Int) : Option Ty := (m.find? (·.1 == k)).map (·.2)
 
